@@ -49,7 +49,8 @@ NonCopy(t) ==
     CASE Tag(t) = "tup" -> \E i \in DOMAIN t[2] : NonCopy(t[2][i])
       [] Tag(t) = "opq" -> \/ t[2] \in {"qubit", "array"}
                            \/ \E i \in DOMAIN t[3] : ~IsConstTerm(t[3][i]) /\ NonCopy(t[3][i])
-      [] Tag(t) = "struct" -> \E i \in DOMAIN t[3] : ~IsConstTerm(t[3][i]) /\ NonCopy(t[3][i])
+      [] Tag(t) = "struct" -> \/ t[2] = "G2"       \* G2 has an array field: never copyable
+                              \/ \E i \in DOMAIN t[3] : ~IsConstTerm(t[3][i]) /\ NonCopy(t[3][i])
       [] OTHER -> FALSE
 
 \* ---------------------------------------------------------------- tokens ---------------
